@@ -72,7 +72,53 @@ VALUES = [
     ("<br>", 0),
     ("x", 1),
     ("Other <i>it</i>", 2),
+    ("", 0),
 ]
+EMPTY = len(VALUES) - 1
+# formats in which a record may carry an empty value (Fluent needs a value or an attribute; gettext's empty msgstr is value index -1)
+EMPTY_OK = ("properties", "dtd", "ini", "inc", "android")
+
+# Fluent only: (value text or None, ((attribute name, attribute text), ...)); value index = len(VALUES) + position.
+# A multi-line value is printed with an indented continuation line; the parsed text keeps the line break.
+FTL_SHAPES = [
+    ("two words", (("title", "tip text"),)),
+    ("two words", (("title", "another tip"),)),
+    ("two words", (("title", "tip text"), ("accesskey", "T"))),
+    (None, (("label", "Only an attribute"),)),
+    (None, (("label", "Other attribute text"),)),
+    (None, (("label", "Only an attribute"), ("title", "tip text"))),
+    ("first line\nsecond line", ()),
+    ("first line\nsecond line", (("title", "tip text"),)),
+    ("first line\nsecond line", (("title", "another tip"),)),
+    ("first line\nother second line", (("title", "tip text"),)),
+    ("one", (("aria-label", "spoken one"),)),
+]
+
+
+def fval(vi):
+    """Fluent: (value text or None, attributes) of a value index"""
+    if vi < len(VALUES):
+        return (VALUES[vi][0], ())
+    return FTL_SHAPES[vi - len(VALUES)]
+
+
+def legal_vis(fmt, key):
+    """value indices a record with this key may carry in this format"""
+    if fmt == "ftl":
+        vis = [i for i in range(len(VALUES) + len(FTL_SHAPES)) if i != EMPTY]
+        if key.startswith("-"):
+            vis = [i for i in vis if fval(i)[0] is not None]      # a term needs a value
+        return vis
+    if fmt in EMPTY_OK:
+        return list(range(len(VALUES)))
+    return [i for i in range(len(VALUES)) if i != EMPTY]
+
+
+def siblings(fmt, key, vi):
+    """Fluent: the other shapes with the same value text (they differ in attributes only)"""
+    if fmt != "ftl" or vi < 0:
+        return []
+    return [j for j in legal_vis(fmt, key) if j != vi and fval(j)[0] == fval(vi)[0]]
 
 KEYS = {
     "properties": ["alpha", "menu.accesskey", "gamma", "beta", "openKey", "KEYS", "monkey_biz", "k", "a.b", "delta", "Key", "ke-y"],
@@ -93,12 +139,15 @@ def xml_esc(s):
     return s.replace("&", "&amp;").replace("<", "&lt;").replace(">", "&gt;")
 
 
-def print_record(fmt, key, val, variant):
-    """raw text of one record whose parsed value is `val` (variant 1: a different spelling of the same value)"""
+def print_record(fmt, key, vi, variant):
+    """raw text of one record with value index `vi` (variant 1: a different spelling of the same value)"""
+    val = value_of(fmt, key, vi)
     if fmt == "properties":
         raw = val
-        if variant:
+        if variant and val:
             raw = "\\u%04x" % ord(val[0]) + val[1:]
+        if not val:
+            return "%s =" % key if variant else "%s=" % key
         return "%s = %s" % (key, raw) if variant else "%s=%s" % (key, raw)
     if fmt == "dtd":
         if variant and "'" not in val:
@@ -107,9 +156,17 @@ def print_record(fmt, key, val, variant):
     if fmt == "ini":
         return ("; a comment\n" if variant else "") + "%s=%s" % (key, val)
     if fmt == "inc":
+        if not val:
+            return "# a comment\n#define %s " % key if variant else "#define %s" % key
         return ("# a comment\n" if variant else "") + "#define %s %s" % (key, val)
     if fmt == "ftl":
-        return ("# a comment\n" if variant else "") + "%s = %s" % (key, val)
+        text, attrs = fval(vi)
+        out = ("# a comment\n" if variant else "") + key + " ="
+        if text is not None:
+            out += " " + text.replace("\n", "\n    ")
+        for name, atext in attrs:
+            out += "\n    .%s = %s" % (name, atext)
+        return out
     if fmt == "po":
         msgid, ctxt = key
 
@@ -139,7 +196,7 @@ def print_file(fmt, items, blank):
             lines.append(JUNK[fmt])
         else:
             _, key, vi, variant = it
-            lines.append(print_record(fmt, key, value_of(fmt, key, vi), variant))
+            lines.append(print_record(fmt, key, vi, variant))
     sep = "\n\n" if (blank and fmt != "inc") else "\n"
     if fmt == "po":
         sep = "\n"          # records end with a newline already: entries are separated by an empty line
@@ -155,19 +212,29 @@ def value_of(fmt, key, vi):
     """the raw value index -1 is the empty msgstr of a gettext template"""
     if vi < 0:
         return ""
+    if fmt == "ftl":
+        return fval(vi)[0]
     return VALUES[vi][0]
 
 
 def sem(fmt, key, vi):
-    """the value the comparison looks at: gettext falls back to the msgid for an empty msgstr"""
+    """what the comparison looks at: gettext falls back to the msgid for an empty msgstr; a Fluent message is its value and
+    its attributes, a Fluent term its value only (attributes of terms are private)"""
     if vi < 0:
         return key[0]
+    if fmt == "ftl":
+        text, attrs = fval(vi)
+        return (text,) if key.startswith("-") else (text, attrs)
     return VALUES[vi][0]
 
 
 def words(fmt, key, vi):
     if fmt == "ftl":
-        return len(VALUES[vi][0].split())
+        text, attrs = fval(vi)
+        n = len(text.split()) if text is not None else 0
+        if key is None or not key.startswith("-"):
+            n += sum(len(atext.split()) for _, atext in attrs)
+        return n
     if vi < 0:
         return len(key[0].split())          # msgids of the pool carry no markup
     return VALUES[vi][1]
@@ -214,8 +281,32 @@ def gen_cases(ctx, fmt):
                     l10n = l10n[::-1]
                 cases.append({"fmt": fmt, "ref": [("rec", k, v, 0) for k, v in base], "l10n": l10n, "blank": False,
                               "verdicts": None, "add": None, "kind": "exhaustive"})
+    # second exhaustive family: empty values followed by further records / Fluent attribute edits
+    fam = None
+    if fmt in EMPTY_OK:
+        # (key, reference value, re-value, second re-value)
+        fam = [(keys[0], EMPTY, 3, 0), (keys[2], 0, EMPTY, 3), (keys[3], EMPTY, 4, 0)]
+    elif fmt == "ftl":
+        nV = len(VALUES)
+        fam = [(keys[0], nV + 0, nV + 1, nV + 2),       # attribute text changed / attribute added
+               (keys[2], nV + 3, nV + 4, nV + 5),       # attribute-only message
+               (keys[3], nV + 7, nV + 8, nV + 6)]       # multi-line value: attribute text changed / attribute dropped
+    if fam:
+        fbase = [(k, v) for k, v, _, _ in fam]
+        for ops in itertools.product(range(5), repeat=3):
+            script = []
+            for (k, v, r1, r2), o in zip(fam, ops):
+                script.append(["keep", "alt", "revalue:%d" % r1, "revalue:%d" % r2, "drop"][o])
+            for rev in (False, True):
+                l10n = derive(fbase, script, [], None)
+                if rev:
+                    l10n = l10n[::-1]
+                cases.append({"fmt": fmt, "ref": [("rec", k, v, 0) for k, v in fbase], "l10n": l10n, "blank": False,
+                              "verdicts": None, "add": None, "kind": "exhaustive"})
     exhaustive = len(cases)
-    nv = len(VALUES)
+
+    def pick(k):
+        return rng.choice(legal_vis(fmt, k))
     for n in range(ctx.n(260, 15000)):
         nref = rng.choice([0, 1, 2, 3, 4, 5, 6, 7, 8])
         dup_ref = rng.random() < 0.12
@@ -226,9 +317,11 @@ def gen_cases(ctx, fmt):
             ref_keys.insert(rng.randrange(len(ref_keys) + 1), rng.choice(ref_keys))
         ref_recs = []
         for k in ref_keys:
-            vi = rng.randrange(nv)
+            vi = pick(k)
             if fmt == "po" and rng.random() < 0.3:
                 vi = -1
+            if fmt in EMPTY_OK and rng.random() < 0.1:
+                vi = EMPTY
             ref_recs.append((k, vi))
         ops = []
         for k, vi in ref_recs:
@@ -238,18 +331,23 @@ def gen_cases(ctx, fmt):
             elif r < 0.5:
                 ops.append("alt" if vi >= 0 else "keep")
             elif r < 0.75:
-                nvi = rng.randrange(nv)
+                nvi = pick(k)
+                sib = siblings(fmt, k, vi)
+                if sib and rng.random() < 0.5:
+                    nvi = rng.choice(sib)               # Fluent: same value text, other attributes
+                if fmt in EMPTY_OK and rng.random() < 0.15:
+                    nvi = EMPTY
                 ops.append("revalue:%d" % nvi)
             else:
                 ops.append("drop")
         fresh = [k for k in pool_keys if k not in ref_keys]
         added = []
         for k in fresh[:rng.choice([0, 0, 1, 1, 2, 3])]:
-            added.append((rng.randrange(9), k, rng.randrange(nv)))
+            added.append((rng.randrange(9), k, pick(k)))
         l10n = derive(ref_recs, ops, added, None)
         if l10n and rng.random() < 0.1:          # a duplicate key in the localization
             src = rng.choice(l10n)
-            l10n.insert(rng.randrange(len(l10n) + 1), ("rec", src[1], rng.randrange(nv), 0))
+            l10n.insert(rng.randrange(len(l10n) + 1), ("rec", src[1], pick(src[1]), 0))
         if rng.random() < 0.5:
             rng.shuffle(l10n)
         ref = [("rec", k, v, 0) for k, v in ref_recs]
@@ -270,7 +368,7 @@ def gen_cases(ctx, fmt):
         if rng.random() < 0.3:
             ks = list(keys)
             rng.shuffle(ks)
-            add = [("rec", k, (-1 if (fmt == "po" and rng.random() < 0.3) else rng.randrange(nv)), 0) for k in ks[:rng.randrange(5)]]
+            add = [("rec", k, (-1 if (fmt == "po" and rng.random() < 0.3) else pick(k)), 0) for k in ks[:rng.randrange(5)]]
             if add and rng.random() < 0.2:
                 add.append(add[0])
             if rng.random() < 0.3:
@@ -404,7 +502,9 @@ def run(ctx):
     out = Outcome()
     out.rule = ("per format (properties, dtd, ini, inc, ftl, po, android): three reference records x every edit script "
                 "(keep / respell / re-value / drop per record, x 4 sets of added records, x 2 orders = 512; thorough: four records = 2048) "
-                "exhaustively, plus seeded random "
+                "exhaustively, a second exhaustive family of 250 scripts with empty values followed by further records (properties, dtd, ini, "
+                "inc, android) resp. Fluent attribute edits (attribute text changed / attribute added or dropped / attribute-only messages / "
+                "multi-line values), plus seeded random "
                 "(records, edit script) pairs with up to 8 reference records, duplicates, junk lines, filters and a following missing-file add; "
                 "count_words: every pool value in every format plus random markup token sequences. non-trivial = at least two of "
                 "missing/obsolete/changed/unchanged/keys are non-zero; distinct = distinct (format, canonical report)")
@@ -501,7 +601,7 @@ def run_words(ctx, out):
     args, meta = [], []
     for fmt in FORMATS:
         key = KEYS[fmt][0]
-        for vi in range(len(VALUES)):
+        for vi in legal_vis(fmt, key):
             for variant in (0, 1):
                 args.append([fmt, print_file(fmt, [("rec", key, vi, variant)], False)])
                 meta.append((fmt, vi, variant))
@@ -514,10 +614,11 @@ def run_words(ctx, out):
             out.violations.append({"what": "%s: a one-record file did not parse into one entity (%s)" % (fmt, r), "input": inp})
             continue
         val, w = r["r"]
+        shown = fval(vi) if fmt == "ftl" else VALUES[vi][0]
         if fmt != "ftl" and val != VALUES[vi][0]:
-            out.violations.append({"what": "%s: value %r read back as %r" % (fmt, VALUES[vi][0], val), "input": inp})
+            out.violations.append({"what": "%s: value %r read back as %r" % (fmt, shown, val), "input": inp})
         elif w != words(fmt, KEYS[fmt][0], vi):
-            out.violations.append({"what": "%s: count_words(%r) = %d, expected %d" % (fmt, VALUES[vi][0], w, words(fmt, None, vi)),
+            out.violations.append({"what": "%s: count_words(%r) = %d, expected %d" % (fmt, shown, w, words(fmt, KEYS[fmt][0], vi)),
                                    "input": inp})
         if fmt != "ftl":
             lits.append(val)
